@@ -33,7 +33,11 @@ func TestVerifC05ConcurrentRetry(t *testing.T) {
 		rounds = 20
 	}
 	for _, algo := range []string{"epidemic", "sensor-mule", "prophet", "dtlsr"} {
-		for _, n := range []int{8, 24} {
+		ns := []int{24}
+		if vk.Tier() == "thorough" {
+			ns = []int{8, 24}
+		}
+		for _, n := range ns {
 			for _, ticks := range []int{1, 2} {
 				cases = append(cases, c05RetryCase{algo, n, rounds, ticks})
 			}
